@@ -57,8 +57,16 @@ class P(pg.Object):
   z: pg.typing.Any() = None
 
 
+class PS(P):
+  """Subscribes to its field updates the documented way: overrides _on_change (and does not chain up, like pg.Functor)."""
+
+  def _on_change(self, field_updates):
+    LOG.append((self, dict(field_updates)))
+
+
 def t_fresh(v):
   return pg.Dict(
+      sub=PS.partial(z=pg.Dict(k=v[0], deep=pg.List([P.partial()]))),
       part=P.partial(z=pg.Dict(k=v[0])),
       full=P(x=v[1], y=v[2]),
       hyper=pg.Dict(choice=pg.oneof([1, 2, 3]), inner=pg.List([pg.Dict(f=pg.floatv(0.0, 1.0))])),
@@ -255,7 +263,7 @@ def _facts(n):
 
 
 def h_fresh(params, v0, v1, v2, v3, t, i, vk, w, w2, mode):
-  t, i, vk, mode = concretize(t, range(0, 11)), concretize(i, range(-1, 6)), concretize(vk, (0, 1, 2, 3)), concretize(mode, (0, 1))
+  t, i, vk, mode = concretize(t, range(0, 16)), concretize(i, range(-1, 6)), concretize(vk, (0, 1, 2, 3)), concretize(mode, (0, 1))
   with untraced():
     return _fresh_body(params, 1, 2, 3, 4, t, i, vk, 50, 60, mode)
 
